@@ -104,7 +104,7 @@ PROPS = {
         "assumptions": ["coordinates are dyadic so binary64 arithmetic is exact; with astronomically large repeat counts only the integer counts are compared"],
     },
     "C02": {
-        "lean_modules": ["StimModel.Props.C02", "StimModel.Core.FrameRel", "StimModel.Generated.FrameThms", "StimModel.Generated.GateThms", "StimModel.Props.GF2"],
+        "lean_modules": ["StimModel.Props.C02", "StimModel.Core.FrameRel", "StimModel.Generated.FrameThms", "StimModel.Generated.GateThms", "StimModel.Props.GF2", "StimModel.Props.GF2c"],
         "areas": [
             {"area": "gatetab", "n": 1, "extra": ["Frame"]},
             {"area": "fsim", "n": {"quick": 500, "thorough": 10000}, "replayable": True},
@@ -119,7 +119,7 @@ PROPS = {
         "assumptions": ["disjoint / heralded / correlated channels are over-approximated by the span of their Paulis (sound for the validity check)"],
     },
     "C04": {
-        "lean_modules": ["StimModel.Props.C04", "StimModel.Props.GF2"],
+        "lean_modules": ["StimModel.Props.C04", "StimModel.Props.GF2", "StimModel.Props.GF2c"],
         "areas": [
             {"area": "fsim", "n": {"quick": 500, "thorough": 10000}, "replayable": True},
         ],
@@ -238,7 +238,7 @@ PROPS = {
         "assumptions": ["circuits whose detectors are deterministic (the circuit's model exists without allow_gauge_detectors)"],
     },
     "C14": {
-        "lean_modules": ["StimModel.Props.C14", "StimModel.Props.GF2"],
+        "lean_modules": ["StimModel.Props.C14", "StimModel.Props.GF2", "StimModel.Props.GF2c", "StimModel.Props.C14b"],
         "builds": ["asan"],
         "areas": [
             {"area": "flow", "shrink": True, "n": {"quick": 400, "thorough": 8000}, "replayable": True, "builds": ["asan"]},
@@ -255,7 +255,7 @@ PROPS = {
         "assumptions": [],
     },
     "C13": {
-        "lean_modules": ["StimModel.Props.C13", "StimModel.Props.GF2"],
+        "lean_modules": ["StimModel.Props.C13", "StimModel.Props.GF2", "StimModel.Props.GF2c", "StimModel.Props.C13b"],
         "areas": [
             {"area": "rewrite", "shrink": True, "n": {"quick": 360, "thorough": 6000}, "replayable": True},
         ],
